@@ -107,6 +107,10 @@ def gen_task(rng, tree, scene, k, agent_only=False):
         s_ref = ref(rng, tree, tsbox, src, dflt)
         t_ref = ref(rng, tree, tsbox, tgt_abs, tsbox) if tname else None
         if dirform: t_ref = ref(rng, tree, tsbox, dirform, tsbox) + '/'
+        if dirform and action == 'Link' and '://' not in t_ref:
+            # (a target without schema that exists as a directory is rewritten to <dir>/<name> by the agent side stager
+            #  before anything else - then a LINK into it works; the LINK-onto-a-directory case is written with a schema)
+            t_ref = 'file://localhost' + dirform + '/'
         if action == 'Transfer' and rng.random() < 0.6 and '://' not in s_ref and (t_ref is None or '://' not in t_ref or True):
             # string short forms
             if t_ref is None: sd = s_ref
